@@ -59,6 +59,7 @@ Definition parser_of (t : tok) : option custom_parser :=
   | 2 => Some (fun ps => if zmem (gpid ps) pids then Ok (replace_group ps, true) else Ok ([], false))
   | 3 => Some (fun ps => if zmem (gpid ps) pids then Err E_generic else Ok ([], false))
   | 4 => Some (fun ps => Ok (replace_group ps, true))
+  | 5 => Some (fun ps => Ok (replace_group ps, false))
   | _ => None
   end.
 
